@@ -63,6 +63,13 @@ var witnessCases = [][]string{
 	{"from_radix/1", "s:6666", "n:16"},
 	{"from_radix/1", "s:6666", "n:-16"},
 	{"from_radix/1", "s:6666", "b:18446744073709551616"},
+	{"d/1", "bin:fffe00/24/8", "O(line_bytes=n:0)"},
+	{"d/1", "dv:png=O()", "O(line_bytes=n:0)"},
+	{"hexdump/1", "s:616263646566", "O(addrbase=n:99;line_bytes=n:-7;sizebase=n:1)"},
+	{"d/1", "dv:png=O()", "O(display_bytes=n:1;line_bytes=n:2305843009213693952)"},
+	{"dv/1", "bin:fffe00/24/8", "O(display_bytes=n:1;line_bytes=n:1000000)"},
+	{"protobuf_widevine/0", "A(n:16;n:0)"},
+	{"from_protobuf_widevine/0", "bin:1000/16/8"},
 	{"intdiv/2", "null", "n:7", "n:0"},
 	{"intdiv/2", "null", "n:7", "n:-1"},
 	{"intdiv/2", "null", "n:-7", "n:2"},
